@@ -196,14 +196,33 @@ func (n *Node) Produce(skip int) error {
 		return fmt.Errorf("%s is not a producer", n.Name)
 	}
 	prev := n.Frontier()
-	t := prev.Timestamp.Add(time.Duration(10*(skip+1)) * time.Second)
-	Clock.Set(t)
-	expected, err := n.Cons.GetMomentumProducer(t)
-	if err != nil {
-		return err
-	}
-	if expected == nil {
-		return fmt.Errorf("no producer for %v", t)
+	var t time.Time
+	var expected *types.Address
+	// a slot whose elected pillar is not run by the lab (a pillar registered during the run) is a missed slot
+	for try := 0; ; try++ {
+		t = prev.Timestamp.Add(time.Duration(10*(skip+1)) * time.Second)
+		Clock.Set(t)
+		var err error
+		expected, err = n.Cons.GetMomentumProducer(t)
+		if err != nil {
+			return err
+		}
+		if expected == nil {
+			return fmt.Errorf("no producer for %v", t)
+		}
+		ours := false
+		for _, p := range n.Pillars {
+			if *p.GetCoinBase() == *expected {
+				ours = true
+			}
+		}
+		if ours {
+			break
+		}
+		if try > 200 {
+			return fmt.Errorf("no lab pillar elected in 200 slots after %v (last: %v)", prev.Timestamp, expected)
+		}
+		skip++
 	}
 	done := false
 	for _, p := range n.Pillars {
